@@ -179,7 +179,9 @@ fn foreign_conv(class: &str) -> bool {
 
 pub fn test_c07(reg: &Reg, case: &Case, stats: Option<&mut Stats>) -> Verdict {
     let e = &reg.entries[case.ty];
-    if case.payload.has_dup_keys() {
+    // repeated keys are judged when every repetition carries the same value (then neither first-wins nor
+    // last-wins nor the order matters); other duplicate-key payloads are left to C01/C02/C04/C12
+    if case.payload.has_dup_keys() && !case.payload.dups_are_clones() {
         return Verdict::Ok;
     }
     let src = src_for(case);
@@ -299,7 +301,9 @@ pub fn gen_c08(reg: Arc<Reg>) -> GenFn {
 
 pub fn test_c08(reg: &Reg, case: &Case, stats: Option<&mut Stats>) -> Verdict {
     let e = &reg.entries[case.ty];
-    if case.payload.has_dup_keys() {
+    // repeated keys are judged when every repetition carries the same value (then neither first-wins nor
+    // last-wins nor the order matters); other duplicate-key payloads are left to C01/C02/C04/C12
+    if case.payload.has_dup_keys() && !case.payload.dups_are_clones() {
         return Verdict::Ok;
     }
     let src = src_for(case);
@@ -454,7 +458,9 @@ fn report_summary(out: &dv_core::entry::Outcome) -> Vec<(String, String)> {
 
 pub fn test_c09(reg: &Reg, case: &Case, stats: Option<&mut Stats>) -> Verdict {
     let e = &reg.entries[case.ty];
-    if case.payload.has_dup_keys() {
+    // repeated keys are judged when every repetition carries the same value (then neither first-wins nor
+    // last-wins nor the order matters); other duplicate-key payloads are left to C01/C02/C04/C12
+    if case.payload.has_dup_keys() && !case.payload.dups_are_clones() {
         return Verdict::Ok;
     }
     let src = src_for(case);
@@ -584,7 +590,9 @@ pub fn gen_c10(reg: Arc<Reg>) -> GenFn {
 
 pub fn test_c10(reg: &Reg, case: &Case, stats: Option<&mut Stats>) -> Verdict {
     let e = &reg.entries[case.ty];
-    if case.payload.has_dup_keys() {
+    // repeated keys are judged when every repetition carries the same value (then neither first-wins nor
+    // last-wins nor the order matters); other duplicate-key payloads are left to C01/C02/C04/C12
+    if case.payload.has_dup_keys() && !case.payload.dups_are_clones() {
         return Verdict::Ok;
     }
     let src = src_for(case);
@@ -679,7 +687,7 @@ pub fn gen_c11(reg: Arc<Reg>) -> GenFn {
 
 pub fn test_c11(reg: &Reg, case: &Case, stats: Option<&mut Stats>) -> Verdict {
     let e = &reg.entries[case.ty];
-    if case.payload.has_dup_keys() || case.payload.has_nonfinite() {
+    if (case.payload.has_dup_keys() && !case.payload.dups_are_clones()) || case.payload.has_nonfinite() {
         return Verdict::Ok;
     }
     let src = src_for(case);
@@ -753,6 +761,36 @@ pub fn test_c11(reg: &Reg, case: &Case, stats: Option<&mut Stats>) -> Verdict {
             }
         }
     }
+    // a failure of a field-level try_from is handed on at the FIELD's location: when the field has its own error
+    // type, the conversion error is reported to that type at the field and the result is handed to the
+    // container's error type at the same place - whatever the field's error type answered
+    let has_field_level = c.out.trace.iter().any(|ev| matches!(ev, Event::Report { tag, .. } if *tag != 0));
+    let mut traces: Vec<(String, Vec<Event>)> = vec![("C*".into(), c.out.trace.clone())];
+    if has_field_level {
+        for sc in [Script::all_break(), Script::break_at(1)] {
+            let o = (e.rec)(&case.payload, src, &sc);
+            if o.panicked.is_none() {
+                traces.push((sc.show(), o.trace));
+            }
+        }
+    }
+    for (script, tr) in &traces {
+        for ev in tr {
+            if let Event::HandOver { from, to, other_built_by, loc, .. } = ev {
+                if from != to {
+                    if let Some(Event::Report { tag, kind: dv_core::trace::RKind::Foreign(dv_core::trace::ProbeData::Failed { .. }), loc: at, .. }) = tr.get(*other_built_by) {
+                        if tag == from && at != loc {
+                            return Verdict::Violation(
+                                "C11|field-level-failure-handed-over-at-another-location".into(),
+                                json!({"what": format!("the conversion failure reported at {} was handed to the container's error type at {}", path_str(at), path_str(loc)),
+                                       "script": script, "history": dv_core::trace::show_trace(tr)}),
+                            );
+                        }
+                    }
+                }
+            }
+        }
+    }
     Verdict::Ok
 }
 
@@ -804,7 +842,9 @@ fn parse_collision(ty: &Ty, pv: &PV, depth: usize) -> bool {
 
 pub fn test_c06(reg: &Reg, case: &Case, stats: Option<&mut Stats>) -> Verdict {
     let e = &reg.entries[case.ty];
-    if case.payload.has_dup_keys() {
+    // repeated keys are judged when every repetition carries the same value (then neither first-wins nor
+    // last-wins nor the order matters); other duplicate-key payloads are left to C01/C02/C04/C12
+    if case.payload.has_dup_keys() && !case.payload.dups_are_clones() {
         return Verdict::Ok;
     }
     let src = src_for(case);
@@ -898,7 +938,7 @@ pub fn run(prop: &'static str, tier: Tier) -> i32 {
     let reg = registry();
     let (gen, test, rule, cases): (GenFn, TestFn, &str, (u32, u32)) = match prop {
         "C06" => (
-            gen_c06(reg.clone()),
+            with_repeated_member(gen_c06(reg.clone())),
             test_c06 as TestFn,
             "cases = (std container shape x element type from the catalogue cross product incl. nested containers and derived structs, lengths 0..6 incl. arity+-1, equal elements, colliding and unparsable map keys (\"+5\", \"05\", \"256\", \"x\"), nulls under Option nesting, CS strings with empty segments, faults at every position), both sources; \
              oracle: reference interpreter - element i from payload element i in order, set/map semantics by the parsed key (std FromStr), None iff null, BadSequenceLen{whole sequence, arity}, unparsable key reported at the map naming the key and the call fails; colliding keys: only success/failure compared; \
@@ -906,7 +946,7 @@ pub fn run(prop: &'static str, tier: Tier) -> i32 {
             (1_600_000, 30_000_000),
         ),
         "C07" => (
-            gen_c07(reg.clone()),
+            with_repeated_member(gen_c07(reg.clone())),
             test_c07 as TestFn,
             "cases = (derived struct / struct-like variant from the hand-written and randomly generated derive inputs, a well-typed payload in which, per field, entries under non-effective aliases (identifier, camelCase, lowercase, UPPERCASE, case-flipped, one-edit near-misses, names of skipped fields) are added with well-typed distinct values and the effective key is sometimes removed); \
              oracle: value (via ToModel) == interpreter's projection through the harness' own effective-key rule, report multiset equal, values under non-effective keys never consumed (OV); \
@@ -914,7 +954,7 @@ pub fn run(prop: &'static str, tier: Tier) -> i32 {
             (1_200_000, 20_000_000),
         ),
         "C08" => (
-            gen_c08(reg.clone()),
+            with_repeated_member(gen_c08(reg.clone())),
             test_c08 as TestFn,
             "cases = (derived types mixing default / default = expr / skip / missing_field_error / map / Option fields; payload obtained from a valid one by deleting, nulling or corrupting a random subset of the keys at each struct site, keys of skipped fields sometimes present); \
              oracle: MissingField / custom-missing reports == {non-skipped, no default, key absent}, each once, at the container's location, with the effective key (custom: captured (key, location)); present-but-invalid and null are not missing; on success defaults (+map) exactly when absent, skipped fields equal their default and their payload value is never consumed; \
@@ -922,7 +962,7 @@ pub fn run(prop: &'static str, tier: Tier) -> i32 {
             (1_200_000, 20_000_000),
         ),
         "C09" => (
-            gen_c09(reg.clone()),
+            with_repeated_member(gen_c09(reg.clone())),
             test_c09 as TestFn,
             "cases = (derived types with and without deny_unknown_fields (default and custom function, skipped/renamed fields, inside tagged enums); payload extended with 0..5 extra keys per site: near-misses of real keys, names of skipped fields, tag look-alikes, arbitrary strings); \
              oracle: with the attribute, UnknownKey / custom reports == extra keys, each once, at the container's location with the effective keys of the non-skipped fields in declaration order; never for known keys or the tag; without it (metamorphic) value and reports identical with and without the extras and their values never consumed; \
@@ -930,7 +970,7 @@ pub fn run(prop: &'static str, tier: Tier) -> i32 {
             (1_200_000, 20_000_000),
         ),
         "C10" => (
-            gen_c10(reg.clone()),
+            with_repeated_member(gen_c10(reg.clone())),
             test_c10 as TestFn,
             "cases = (types containing unit-only or internally tagged enums (renamed variants, rename_all, 1..4 variants, variants sharing field names, tag key colliding with a field key); the tag / string is replaced by: each variant name, the identifier, lower/upper case, camelCase, near-misses, arbitrary strings, non-strings of every kind, or removed); \
              oracle: selected variant == the one whose effective name equals the tag exactly (fields by that variant's rules); missing tag => MissingField{tag} at the enum; non-string => IncorrectValueKind{String} at enum.tag; unknown string => one report at the enum and no value; unit enums => UnknownValue with all names in declaration order; \
@@ -938,7 +978,7 @@ pub fn run(prop: &'static str, tier: Tier) -> i32 {
             (1_200_000, 20_000_000),
         ),
         "C11" => (
-            gen_c11(reg.clone()),
+            with_repeated_member(gen_c11(reg.clone())),
             test_c11 as TestFn,
             "cases = (types using call-logging from / try_from (by value and by reference) / map / validate probes and field-level error types, payloads with injected faults so that any subset of the stages fails); \
              oracle: multiset of logged user-function calls (id, argument, location, outcome) == interpreter's prediction (conversion once iff its intermediate deserialized; map once per field of a succeeding container, on top of default/from; validate once with the finished value and the container's location); failures reported once at the field's / container's location; results flow into the value; every field-level error handed to the container's error type exactly once; \
